@@ -2587,13 +2587,20 @@ impl<'de> serde::de::Visitor<'de> for AnnotationsVisitor<'_> {
                     // temporary public IDs are deserialized exactly
                     // as they were serialized. So if there were any gaps,
                     // we need to deserialize these too:
-                    if self.store.annotations_len() > handle + pre_length {
+                    if self.store.annotations_len() > handle.saturating_add(pre_length) {
                         return Err(serde::de::Error::custom(
                             "unable to resolve temporary public identifiers for annotations",
                         ));
                     } else if handle > self.store.annotations_len() {
                         // expand the gaps, though this wastes memory if ensures that all references
                         // are valid without explicitly storing public identifiers.
+                        // (the number comes from the input: refuse it if that much can not be allocated)
+                        let gap = handle - self.store.annotations_len();
+                        self.store.annotations.try_reserve(gap).map_err(|_| {
+                            serde::de::Error::custom(
+                                "temporary public identifier for annotation is too large",
+                            )
+                        })?;
                         self.store.annotations.resize_with(handle, Default::default);
                     }
                 }
